@@ -51,16 +51,25 @@ StepRE == /\ status = "run" /\ Top \in {"re", "sub"}
              ELSE /\ rc' = c % PR /\ now' = Tick
                   /\ lateR' = IF now > D THEN lateR + 1 ELSE lateR
                   /\ UNCHANGED <<loops, ic, lateV, status, handler, vmStart>>
-\* a native of the running VM loop starts another loop
+\* a native of the running loop starts another loop.  Entering costs a step of the running loop (the instruction
+\* that invokes the native, or the regex step that starts a lookaround), so no behaviour can spin on Enter/Exit
+\* without the clock advancing and the counters moving towards their next poll.
 Enter(k) == /\ status = "run" /\ Len(loops) < MaxNest
             /\ \/ Top \in {"main", "cb", "vm2"} /\ k \in {"cb", "vm2", "re"}
                \/ Top \in {"re", "sub"} /\ k = "sub"
-            /\ IF k = "re" /\ ~FreshAttempt /\ Expired(0) THEN Raise           \* poll at regex call entry
-               ELSE /\ loops' = Append(loops, k)
-                    /\ rc' = IF k = "re" THEN 0 ELSE rc
-                    /\ ic' = IF k = "vm2" /\ FreshVm2 THEN 0 ELSE ic
-                    /\ vmStart' = IF k = "vm2" /\ FreshVm2 THEN now ELSE vmStart
-                    /\ UNCHANGED <<now, lateV, lateR, status, handler>>
+            /\ LET vmTop == Top \in {"main", "cb", "vm2"}
+                   c == IF vmTop THEN ic + 1 ELSE rc + 1
+                   pollNow == IF vmTop THEN c % PV = 0 /\ Expired(vmStart) ELSE c % PR = 0 /\ Expired(0)
+               IN IF pollNow THEN Raise
+                  ELSE IF k = "re" /\ ~FreshAttempt /\ Expired(0) THEN Raise           \* poll at regex call entry
+                  ELSE /\ loops' = Append(loops, k)
+                       /\ now' = Tick
+                       /\ lateV' = IF vmTop /\ now > D THEN lateV + 1 ELSE lateV
+                       /\ lateR' = IF ~vmTop /\ now > D THEN lateR + 1 ELSE lateR
+                       /\ rc' = IF k = "re" THEN 0 ELSE IF vmTop THEN rc ELSE c % PR
+                       /\ ic' = IF k = "vm2" /\ FreshVm2 THEN 0 ELSE IF vmTop THEN c % PV ELSE ic
+                       /\ vmStart' = IF k = "vm2" /\ FreshVm2 THEN now ELSE vmStart
+                       /\ UNCHANGED <<status, handler>>
 \* a regex call starts its next attempt (search at the next position)
 NextAttempt == /\ status = "run" /\ Top = "re"
                /\ rc' = IF FreshAttempt THEN 0 ELSE rc
@@ -73,7 +82,13 @@ Finish == /\ status = "run" /\ Len(loops) = 1 /\ status' = "done"
           /\ UNCHANGED <<now, loops, ic, rc, lateV, lateR, handler, vmStart>>
 
 Next == StepVM \/ StepRE \/ (\E k \in {"cb", "vm2", "re", "sub"} : Enter(k)) \/ NextAttempt \/ Exit \/ Finish
-Spec == Init /\ [][Next]_vars /\ WF_vars(StepVM) /\ WF_vars(StepRE)
+Spec == Init /\ [][Next]_vars /\ WF_vars(Next)
+\* Liveness: every evaluation ends - it finishes, or it is stopped.  Checked WITHOUT a state constraint (the clock
+\* saturates at Horizon and counters are kept modulo their poll interval, so the model is finite): a constraint
+\* could hide a non-progress cycle such as a loop that never polls.
+Termination == <>(status # "run")
+\* once stopped, an evaluation stays stopped (no handler brings it back to life)
+StaysStopped == [][status = "timelimit" => status' = "timelimit"]_vars
 
 \* once the deadline has passed at most one poll interval of each kind is executed
 LateBound == lateV <= PV /\ lateR <= PR
